@@ -2,7 +2,7 @@ import io
 import os
 from collections.abc import Generator, Iterator
 from itertools import chain
-from typing import IO
+from typing import IO, Any
 
 from google.protobuf.proto import parse, parse_length_prefixed
 
@@ -54,6 +54,33 @@ def delimited_jelly_hint(header: bytes) -> bool:
     )
 
 
+class _ReplayedHeader(io.RawIOBase):
+    """Raw stream that replays already consumed bytes before the rest of a source."""
+
+    def __init__(self, header: bytes, source: IO[bytes]) -> None:
+        super().__init__()
+        self._header = header
+        self._source = source
+
+    def readable(self) -> bool:
+        return True
+
+    def readinto(self, buffer: Any) -> int:
+        if self._header:
+            size = min(len(buffer), len(self._header))
+            buffer[:size] = self._header[:size]
+            self._header = self._header[size:]
+            return size
+        # read1() of an already buffered source returns what is available instead
+        # of waiting until the whole buffer can be filled
+        read = getattr(self._source, "read1", self._source.read)
+        data = read(len(buffer))
+        if not data:
+            return 0
+        buffer[: len(data)] = data
+        return len(data)
+
+
 def frame_iterator(inp: IO[bytes]) -> Generator[jelly.RdfStreamFrame]:
     while frame := parse_length_prefixed(jelly.RdfStreamFrame, inp):
         yield frame
@@ -82,8 +109,13 @@ def get_options_and_frames(
         # Input may not be seekable (e.g. a network stream) -- then we need to buffer
         # it to determine if it's delimited.
         # See also: https://github.com/Jelly-RDF/pyjelly/issues/298
-        inp = io.BufferedReader(inp)  # type: ignore[arg-type, type-var, unused-ignore]
-        is_delimited = delimited_jelly_hint(inp.peek(3))
+        # A single peek() may return fewer than 3 bytes when the source delivers
+        # short reads, so read the header for real and replay it afterwards.
+        header = b""
+        while len(header) < 3 and (chunk := inp.read(3 - len(header))):  # noqa: PLR2004
+            header += chunk
+        is_delimited = delimited_jelly_hint(header)
+        inp = io.BufferedReader(_ReplayedHeader(header, inp))  # type: ignore[arg-type, unused-ignore]
     else:
         is_delimited = delimited_jelly_hint(bytes_read := inp.read(3))
         inp.seek(-len(bytes_read), os.SEEK_CUR)
